@@ -8,4 +8,5 @@ coq_makefile -f _CoqProject -o Makefile
 timeout 3000 make -j16
 cd ../ocaml
 ocamlfind ocamlopt -O3 -w -a model.mli model.ml driver.ml -o driver
+ocamlfind ocamlopt -O3 -w -a vmodel.mli vmodel.ml vdriver.ml -o vdriver
 echo "setup ok"
